@@ -157,7 +157,11 @@ func drawDialectModel(t *rapid.T, idx int) XDialect {
 		}
 	}
 	// enums first (deepest files first so that including files can extend them)
+	var placeholders []XEnum
 	for fi := nfiles - 1; fi >= 0; fi-- {
+		if fi == 0 {
+			d.Files[0].Enums = append(d.Files[0].Enums, placeholders...)
+		}
 		ne := rapid.IntRange(0, 3).Draw(t, "nenums")
 		for k := 0; k < ne; k++ {
 			var e XEnum
@@ -183,6 +187,25 @@ func drawDialectModel(t *rapid.T, idx int) XDialect {
 				e.AttrStyle = rapid.IntRange(0, 3).Draw(t, "bitmask_attr_spelling")
 				enumsSoFar = append(enumsSoFar, enumInfo{e.Name, e.Bitmask})
 				usedValues[e.Name] = map[uint64]bool{}
+				if fi > 0 && rapid.IntRange(0, 5).Draw(t, "declared_without_entries") == 0 {
+					// an included file only announces the enum (name, kind, description); the entries come from the
+					// top-level file, which repeats the name without attributes - the enum is what its first
+					// declaration says it is
+					e.Desc = drawDesc(t, "edesc")
+					d.Files[fi].Enums = append(d.Files[fi].Enums, e)
+					ext := XEnum{Name: e.Name}
+					nph := rapid.IntRange(2, 5).Draw(t, "placeholder_entries")
+					for j := 0; j < nph; j++ {
+						v := uint64(j + 1)
+						if e.Bitmask {
+							v = uint64(1) << uint(2*j)
+						}
+						ext.Entries = append(ext.Entries, XEntry{Name: fmt.Sprintf("%s_LATER%d", e.Name, j), Value: v, Text: fmt.Sprint(v)})
+						usedValues[e.Name][v] = true
+					}
+					placeholders = append(placeholders, ext)
+					continue
+				}
 			}
 			e.Desc = drawDesc(t, "edesc")
 			nent := rapid.IntRange(1, 6).Draw(t, "nentries")
@@ -343,8 +366,25 @@ func drawDialectModel(t *rapid.T, idx int) XDialect {
 
 // injectDefect turns a valid model into one the generator cannot express.
 func injectDefect(t *rapid.T, d *XDialect) {
-	kind := rapid.SampledFrom([]string{"unknown-field-type", "bad-enum-value", "bad-message-name"}).Draw(t, "defect")
+	kind := rapid.SampledFrom([]string{"unknown-field-type", "bad-enum-value", "bad-message-name", "duplicate-message-id"}).Draw(t, "defect")
+	if kind == "duplicate-message-id" && len(d.AllMsgs()) < 2 {
+		kind = "bad-message-name"
+	}
 	switch kind {
+	case "duplicate-message-id":
+		// two different messages of the include tree under one id: a dialect cannot hold both
+		type ref struct{ fi, mi int }
+		var all []ref
+		for fi := range d.Files {
+			for mi := range d.Files[fi].Msgs {
+				all = append(all, ref{fi, mi})
+			}
+		}
+		a := rapid.IntRange(0, len(all)-2).Draw(t, "dup_first")
+		b := rapid.IntRange(a+1, len(all)-1).Draw(t, "dup_second")
+		d.Files[all[b].fi].Msgs[all[b].mi].ID = d.Files[all[a].fi].Msgs[all[a].mi].ID
+		d.Negative = fmt.Sprintf("%s:%d", kind, d.Files[all[a].fi].Msgs[all[a].mi].ID)
+		return
 	case "unknown-field-type":
 		for fi := range d.Files {
 			for mi := range d.Files[fi].Msgs {
@@ -365,6 +405,9 @@ func injectDefect(t *rapid.T, d *XDialect) {
 		for fi := range d.Files {
 			for ei := range d.Files[fi].Enums {
 				e := &d.Files[fi].Enums[ei]
+				if len(e.Entries) == 0 {
+					continue
+				}
 				j := rapid.IntRange(0, len(e.Entries)-1).Draw(t, "entry")
 				e.Entries[j].Text = rapid.SampledFrom([]string{"-1", "", "abc", "1.5", "0xZZ", "0b12", "2**x", "1e3", " 5", "18446744073709551616"}).Draw(t, "badvalue")
 				d.Negative = kind + ":" + e.Entries[j].Text
